@@ -601,9 +601,9 @@ def _(E, m, a, c0):
     return opt(t)
 
 # ------------------------------------------------------------------ f64
-@pattern(r'(std::)?f64::<impl f64>::(trunc|floor|ceil|round|abs|is_nan|is_infinite|is_finite|is_sign_positive|is_sign_negative|to_bits|fract|signum|sqrt|powi|powf|ln|exp|sin|cos|tan|mul_add|log|log10|log2|atan2|rem_euclid|div_euclid|min|max|recip|total_cmp|from_bits|copysign)')
+@pattern(r'(?:std::|core::)?f64::<impl f64>::(trunc|floor|ceil|round|abs|is_nan|is_infinite|is_finite|is_sign_positive|is_sign_negative|to_bits|fract|signum|sqrt|powi|powf|ln|exp|sin|cos|tan|mul_add|log|log10|log2|atan2|rem_euclid|div_euclid|min|max|recip|total_cmp|from_bits|copysign)')
 def _(E, m, a, c0):
-    op = m.group(2); x = E.deref(a[0])
+    op = m.group(1); x = E.deref(a[0])
     if op == 'from_bits': return E.fop('from_bits', F64(3, z3.ToReal(x)))
     if op in ('trunc', 'floor', 'ceil'):
         f = {'trunc': trunc_r, 'floor': floor_r, 'ceil': ceil_r}[op]
@@ -753,3 +753,60 @@ def _(E, m, a, c0):
            'is_uppercase': up, 'is_lowercase': lo}[op]
     if op == 'is_ascii_whitespace': return asc
     return z3.If(ascii_, asc, uf(c))
+
+# ------------------------------------------------------------------ structural PartialEq / PartialOrd (tuples, Vec/Rc<Vec>/slices): element-wise dispatch
+def _elem_call(E, ty, trait, meth, x, y):
+    ty = ty.strip()
+    rx, ry = (x if isinstance(x, Ref) else Ref(Cell(x))), (y if isinstance(y, Ref) else Ref(Cell(y)))
+    return E.call(None, None, f'<{ty} as {trait}>::{meth}', [rx, ry], [f'&{ty}', f'&{ty}'])
+def _lex_eq(E, pairs):
+    for ty, x, y in pairs:
+        r = _elem_call(E, ty, 'PartialEq', 'eq', x, y)
+        if not E.branch(r): return z3.BoolVal(False)
+    return z3.BoolVal(True)
+def _lex_cmp(E, pairs, la, lb):
+    for ty, x, y in pairs:
+        r = _elem_call(E, ty, 'PartialOrd', 'partial_cmp', x, y)
+        if r.variant == 'None' or r.fields[0].variant != 'Equal': return r
+    return opt(ordering(0 if la < lb else 1 if la == lb else 2))
+def _sub(E, r, i):
+    c, p = E.canon(r.cell, list(r.path) + [i]); return Ref(c, p)
+@pattern(r'<\((.*)\) as (PartialEq|PartialOrd)>::(eq|ne|partial_cmp)')
+def _(E, m, a, c0):
+    tys = split_top(m.group(1)); x, y = a
+    pairs = [(t, _sub(E, x, i), _sub(E, y, i)) for i, t in enumerate(tys)]
+    if m.group(3) == 'partial_cmp': return _lex_cmp(E, pairs, 0, 0)
+    r = _lex_eq(E, pairs); return r if m.group(3) == 'eq' else z3.Not(r)
+def _seq_ref(E, r):
+    """Ref to the Seq payload behind &Rc<Vec<T>> / &Vec<T> / &[T]"""
+    v = E.deref(r)
+    if isinstance(v, RcV): return Ref(v.obj.cell, [])
+    if isinstance(v, Seq): return r
+    raise Missing(f'sequence compare on {v!r}')
+@pattern(r'<(?:std::rc::)?(?:Rc<)?(?:Vec<|\[)(.*?)[>\]]>? as (PartialEq|PartialOrd)(?:<.*>)?>::(eq|ne|partial_cmp)')
+def _(E, m, a, c0):
+    ty = m.group(1); x, y = _seq_ref(E, a[0]), _seq_ref(E, a[1])
+    xs, ys = E.deref(x).fields, E.deref(y).fields
+    if m.group(3) != 'partial_cmp':
+        if len(xs) != len(ys): r = z3.BoolVal(False)
+        else: r = _lex_eq(E, [(ty, _sub(E, x, i), _sub(E, y, i)) for i in range(len(xs))])
+        return r if m.group(3) == 'eq' else z3.Not(r)
+    n = min(len(xs), len(ys))
+    return _lex_cmp(E, [(ty, _sub(E, x, i), _sub(E, y, i)) for i in range(n)], len(xs), len(ys))
+
+# blanket impls `impl PartialEq<&B> for &A` etc.: forward through one reference level to the crate's impl
+@pattern(r'<&(?:mut )?(&*[A-Z][\w:]*(?:<.*>)?) as (PartialEq|PartialOrd|Ord)(?:<.*>)?>::(\w+)')
+def _(E, m, a, c0):
+    ty, trait, meth = m.groups()
+    def one(x):
+        if isinstance(x, Ref):
+            inner = E.read(x.cell, x.path)
+            if isinstance(inner, Ref): return inner
+        return x
+    args = [one(x) for x in a]
+    return E.call(None, None, f'<{ty} as {trait}>::{meth}', args, [f'&{ty}'] * len(args))
+@pattern(r'<bool as (Ord|PartialOrd)>::(cmp|partial_cmp)')
+def _(E, m, a, c0):
+    x, y = E.deref(a[0]), E.deref(a[1])
+    k = E.choose([z3.And(z3.Not(x), y), x == y, z3.And(x, z3.Not(y))]); o = ordering(k)
+    return o if m.group(2) == 'cmp' else opt(o)
